@@ -53,6 +53,9 @@ class EFLRSetsDict(defaultdict):
             An EFLRSet instance of given subtype and name, registered in the structure.
         """
 
+        # an empty name is written as no name: it denotes the same (default) set
+        set_name = set_name or None
+
         # dict mapping set names on EFLRSet (subclass) instances
         eflr_set_dict: dict[Union[str, None], AnyEFLRSet] = self[eflr_set_type]
 
